@@ -37,67 +37,7 @@ def run(repo, R):
             raise AnalysisError("ANCHOR", f"parameter `{p}` of electrostatic_potential not found", f.where())
     D = Defs(fn)
 
-    # ------------------------------------------------------------------ D1
-    stores = []
-    for st in walk_no_nested(fn):
-        if isinstance(st, ast.Assign) and len(st.targets) == 1 and isinstance(st.targets[0], ast.Subscript) \
-                and isinstance(st.targets[0].value, ast.Name):
-            arr = st.targets[0].value.id
-            if "nuclear_charges" in D.slice_names(ast.Name(id=arr)) and isinstance(st.value, ast.Constant) and st.value.value in (0, 0.0):
-                stores.append(st)
-    if not stores:
-        # np.where(mask, 0, Z/d) form
-        raise AnalysisError("D1", "masked store of 0 into the nuclear potential not found (thresholding idiom not recognised)", f.where())
-    dist_expr = None
-    for st in stores:
-        sl = st.targets[0].slice
-        mask = sl
-        if isinstance(mask, ast.Name):
-            mv = D.single_assign(mask.id)
-            if mv is None:
-                raise AnalysisError("D1", "mask variable has more than one definition", f.where(st))
-            mask = mv
-        nc = normal_compare(mask)
-        text = ast.unparse(st)
-        if nc is None:
-            R.fail("D1", f.site, text, "the condition that drops a nucleus is not a single comparison distance < threshold_dist",
-                   where=f.where(st), expected="dist < threshold_dist", found=ast.unparse(mask))
-            continue
-        lhs, op, rhs = nc
-        # orient: threshold side on the right
-        if unwrap_scalar(lhs) is not None and unwrap_scalar(lhs).id == "threshold_dist":
-            lhs, rhs, op = rhs, lhs, flip(op)
-        thr = unwrap_scalar(rhs)
-        thr_ok = thr is not None and thr.id == "threshold_dist" and len([d for d in D.of("threshold_dist") if d[0] != "param"]) == 0
-        R.check(thr_ok, "D1", f.site, text + " :: threshold side",
-                "the distance must be compared with `threshold_dist` itself (unmodified parameter)",
-                where=f.where(st), expected="threshold_dist", found=ast.unparse(rhs))
-        deps = D.slice_names(lhs)
-        dep_ok = {"points", "nuclear_coords"} <= deps and "nuclear_charges" not in deps and "threshold_dist" not in deps \
-            and "one_density_matrix" not in deps
-        R.check(dep_ok, "D1", f.site, text + " :: dependencies",
-                "whether a nucleus is dropped must depend on the point-nucleus distance only, whatever its charge: the compared "
-                f"quantity `{ast.unparse(lhs)[:60]}` depends on {sorted(deps & set(params))}",
-                where=f.where(st), expected="depends on {points, nuclear_coords} only", found=sorted(deps & set(params)))
-        R.check(op == "<", "D1", f.site, text + " :: comparison",
-                f"a nucleus is left out exactly when its distance is below the threshold; found `distance {op} threshold_dist`",
-                where=f.where(st), expected="distance < threshold_dist", found=f"distance {op} threshold_dist")
-        dist_expr = lhs
-        # distance formula
-        if dep_ok:
-            p, n = sp.symbols("p n", real=True)
-            E = Elem(f, {"points": p, "nuclear_coords": n}, rule="D1")
-            try:
-                # evaluate the definition chain of the compared quantity
-                val = eval_through_defs(E, D, lhs)
-            except AnalysisError:
-                raise
-            want = sp.sqrt(LinearSum((p - n) ** 2))
-            ok = sp.simplify(val - want) == 0
-            R.check(ok, "D1", f.site, text + " :: distance formula",
-                    "the compared quantity is not the Euclidean point-nucleus distance",
-                    where=f.where(st), expected=str(want), found=str(val))
-
+    # D1 is decided below on the symbolic value of the nuclear term (idiom independent)
     # ------------------------------------------------------------------ SIGN + FWD
     Z, d, P, I, thr_s = sp.symbols("Z d P I threshold_dist", real=True)
     p, n = sp.symbols("p n", real=True)
@@ -132,12 +72,30 @@ def run(repo, R):
     ret = E.returns[0][1]
     E.check_not_opaque(ret, E.returns[0][0])
     ret = ret.subs(dist_sym, d)
-    nuc = sp.Piecewise((0, d < thr_s), (Z / d, True))
-    want = LinearSum(nuc) - LinearSum(P * I)
-    diff = sp.simplify(sp.piecewise_fold(ret - want))
-    R.check(diff == 0, "SIGN", f.site, "return " + ast.unparse(E.returns[0][0].value)[:60],
-            "the returned value is not (sum over nuclei of Z/d, thresholded) minus (density-matrix weighted Coulomb integrals)",
-            where=f.where(E.returns[0][0]), expected=str(want), found=str(ret))
+    where_ret = f.where(E.returns[0][0])
+    # split the result into the part that depends on the nuclear charges and the rest
+    ret = sp.expand(ret) if ret.is_Add else ret
+    terms = sp.Add.make_args(ret)
+    nuc_terms = [t for t in terms if t.has(Z)]
+    el_terms = [t for t in terms if not t.has(Z)]
+    nuc_total = sp.Add(*nuc_terms)
+    el_total = sp.Add(*el_terms)
+    R.check(sp.simplify(el_total + LinearSum(P * I)) == 0, "SIGN", f.site, "electronic term",
+            "the electronic part of the result is not minus the density-matrix weighted sum of the Coulomb integrals",
+            where=where_ret, expected=str(-LinearSum(P * I)), found=str(el_total))
+    # nuclear part: + Sum_A T(Z, d, threshold)
+    T = None
+    if isinstance(nuc_total, LinearSum):
+        T = nuc_total.args[0]
+    else:
+        c, rest = nuc_total.as_coeff_Mul()
+        if isinstance(rest, LinearSum):
+            T = c * rest.args[0]
+    if T is None:
+        R.fail("SIGN", f.site, "nuclear term", "the nuclear part of the result is not a sum over nuclei of a per-nucleus term",
+               where=where_ret, expected="+ sum_A Z_A / d_A (thresholded)", found=str(nuc_total))
+    else:
+        decide_d1(R, f, T, Z, d, thr_s, p, n, where_ret)
     if len(pci_calls) != 1:
         raise AnalysisError("FWD", f"expected one call of point_charge_integral, found {len(pci_calls)}", f.where())
     call = pci_calls[0]
@@ -197,7 +155,11 @@ def run(repo, R):
     R.check(have_tr, "D2", f.site, "size check on the transform path",
             "no size check of the density matrix against the transformation was found", where=f.where(),
             expected="one_density_matrix.shape[0] vs transform.shape[0]")
-    R.floor("D1", R.rules["D1"][0], 3, "mask obligations")
+    R.floor("D1", R.rules["D1"][0], 3, "threshold obligations")
+    from ..flow import check_wrapper_dispatch
+    pcf = repo.func("gbasis.integrals.point_charge.point_charge_integral")
+    R.note_function(pcf.qualname)
+    check_wrapper_dispatch(repo, pcf, R, "FWD")
     R.assumptions += ["point_charge_integral(basis, R, q)[a,b,k] == -q_k * integral phi_a phi_b / |r - R_k| (property C03)",
                       "elementwise abstraction: broadcasting adapters dropped, np.sum linear"]
     return ("FLOW + FORMULA on electrostatic_potential: D1 backward slice and comparison normal form of the condition that zeroes a "
@@ -228,3 +190,66 @@ def eval_through_defs(E, D, expr):
     for nm, v in order:
         E.env[nm] = E.expr(v)
     return E.expr(expr)
+
+
+def poisoned(expr, case, d):
+    """Does evaluating `expr` numerically involve a division by the distance `d` although d may be 0 in this case?
+    `case` maps relational atoms to True/False.  Piecewise selects only the taken branch; products propagate (0*inf = nan)."""
+    if isinstance(expr, sp.Piecewise):
+        for e, c in expr.args:
+            cv = c if c in (sp.true, sp.false) else c.subs(case)
+            if cv == sp.true or cv is True:
+                return poisoned(e, case, d)
+            if cv == sp.false or cv is False:
+                continue
+            return True
+        return False
+    if isinstance(expr, sp.Pow) and expr.base.has(d) and not (expr.exp.is_nonnegative is True):
+        return True
+    return any(poisoned(a, case, d) for a in expr.args)
+
+
+def decide_d1(R, f, T, Z, d, thr, p, n, where):
+    """T: per-nucleus term as a sympy expression in Z (charge), d (distance symbol), thr; possibly still containing the raw
+    distance expression if the code's distance is not the Euclidean one."""
+    site = f.site
+    if T.has(p) or T.has(n):
+        R.fail("D1", site, "distance", "the nuclear term is not a function of the Euclidean point-nucleus distance sqrt(sum((point - nucleus)^2))",
+               where=where, expected="Z / sqrt(sum((p - n)^2))", found=str(T)[:160])
+        return
+    atoms = sorted(T.atoms(sp.core.relational.Relational), key=str)
+    if not atoms:
+        R.fail("D1", site, "threshold", "no nucleus is ever left out: the result does not depend on a distance/threshold comparison",
+               where=where, expected="term dropped when d < threshold_dist", found=str(T)[:120])
+        return
+    if len(atoms) != 1:
+        R.fail("D1", site, "threshold", f"the nuclear term depends on several comparisons {atoms}", where=where)
+        return
+    at = atoms[0]
+    free = at.free_symbols
+    R.check(Z not in free and free <= {d, thr}, "D1", site, f"drop condition {at} :: dependencies",
+            f"whether a nucleus is dropped must depend on its distance and the threshold only, whatever its charge; the condition `{at}` "
+            f"involves {sorted(str(x) for x in free - {d, thr})}", where=where, expected="condition over (distance, threshold_dist)", found=str(at))
+    if not (free <= {d, thr}):
+        return
+    # normalise the atom to  d < thr  (polarity True means: atom true <=> d < thr)
+    canon = None
+    for rel, pol in ((sp.Lt(d, thr), True), (sp.Gt(thr, d), True), (sp.Ge(d, thr), False), (sp.Le(thr, d), False)):
+        if at == rel or at == rel.canonical or at.canonical == rel.canonical:
+            canon = pol
+    R.check(canon is not None, "D1", site, f"drop condition {at} :: comparison",
+            f"a nucleus is left out exactly when its distance is below the threshold (strict, threshold unmodified); found `{at}`",
+            where=where, expected="d < threshold_dist", found=str(at))
+    if canon is None:
+        return
+    dropped_case = {at: sp.true if canon else sp.false}
+    kept_case = {at: sp.false if canon else sp.true}
+    v_drop = sp.simplify(sp.piecewise_fold(T.subs(dropped_case)))
+    v_keep = sp.simplify(sp.piecewise_fold(T.subs(kept_case)))
+    R.check(v_drop == 0 and sp.simplify(v_keep - Z / d) == 0, "D1", site, "thresholded nuclear term",
+            "the per-nucleus term must be 0 below the threshold and +Z/d otherwise",
+            where=where, expected="Piecewise((0, d < thr), (Z/d, True))", found=f"below: {v_drop}; otherwise: {v_keep}")
+    R.check(not poisoned(T, dropped_case, d), "D1-DEF", site, "dropped nucleus is not divided by its distance",
+            "for a dropped nucleus the code still divides by the point-nucleus distance (the mask is multiplied in instead of "
+            "overwriting the value): a point exactly on a nucleus gives 0/0 = nan instead of leaving the nucleus out",
+            where=where, expected="value 0 assigned (masked store / where)", found=str(T))
